@@ -52,7 +52,8 @@ def has_diag(out):
 INJECT = ["drop-paren", "extra-paren", "illegal-char", "unknown-command", "undeclared-symbol", "ill-sorted",
           "nonlinear", "div-zero", "second-set-logic", "before-set-logic", "get-model-no-option", "get-value-not-sat",
           "pop-too-far", "huge-push", "non-bool-assert", "unknown-logic", "bad-option-value",
-          "unterminated-string", "unterminated-quoted"]
+          "unterminated-string", "unterminated-quoted",
+          "percent-in-message", "itp-arity", "late-core-option", "global-toggle", "defined-fun-arity"]
 # (a repeated identical declaration is accepted by opensmt as a no-op; it is not a *rejected* command, so it is not
 #  an input problem in the sense of C18 and is not injected)
 
@@ -111,6 +112,30 @@ def inject(kind, lines, g, rng):
         L.insert(pos, "(set-logic QF_UF)")
     elif kind == "before-set-logic":
         L.insert(logic_idx, rng.choice(["(assert true)", "(check-sat)", "(declare-fun zz () Bool)", "(push 1)", "(get-model)"]))
+    elif kind == "percent-in-message":
+        # the name ends up in a diagnostic: it must not be interpreted as a format
+        L.insert(logic_idx + 1, rng.choice(["(declare-sort %s 0)\n(declare-fun pct () %s)\n(assert pct)",
+                                            "(declare-fun |%n%s%s| () Bool)\n(assert (and |%n%s%s| 1))",
+                                            "(assert (= %s%s%d 1))"]))
+    elif kind == "itp-arity":
+        if not any(":produce-interpolants" in l for l in L):
+            L.insert(0, "(set-option :produce-interpolants true)")
+        L.append(rng.choice(["(get-interpolants)", "(get-interpolants zz_a)", "(get-interpolants (and))"]))
+    elif kind == "late-core-option":
+        if any(":produce-unsat-cores" in l for l in L):
+            return None
+        L.insert(logic_idx + 1, "(set-option :produce-unsat-cores true)")
+        L.append("(get-unsat-core)")
+    elif kind == "global-toggle":
+        if any(":global-declarations" in l for l in L) or any(":incremental" in l for l in L):
+            return None
+        L.insert(logic_idx, "(set-option :global-declarations %s)" % rng.choice(["true", "false"]))
+        L.insert(pos + 1, "(push 1)\n(set-option :global-declarations %s)\n(declare-fun gt_x () Bool)\n(assert (! gt_x :named gt_n))\n(pop 1)" % rng.choice(["true", "false"]))
+        L[logic_idx] = L[logic_idx]
+    elif kind == "defined-fun-arity":
+        L.insert(pos, rng.choice(["(define-fun dfa0 () Bool true)\n(assert (dfa0 true))",
+                                  "(define-fun dfa1 ((v Bool)) Bool (not v))\n(assert (dfa1 true false))",
+                                  "(define-fun dfa2 ((v Bool) (w Bool)) Bool (and v w))\n(assert (dfa2 true))"]))
     elif kind == "get-model-no-option":
         if any(":produce-models" in l for l in L):
             return None            # with the option set get-model is a legal request, not an input problem
